@@ -2,7 +2,7 @@
     exact multiply-subtract for the multiplication kernel) satisfies every contract the theorems
     assume, so the theorems hold for it unconditionally (this is also their non-vacuity witness). *)
 From Dashu Require Import Base.Prelude Base.Words Int.DivWordModel Int.DivWordProofs Int.DivSimpleProofs
-  Int.DivLargeProofs Int.DivDCProofs Int.DivReprProofs Int.DivWordInst.
+  Int.DivLargeProofs Int.DivDCProofs Int.DivReprProofs Int.DivDCTotal Int.DivConstProofs Int.DivWordInst.
 From DashuGen Require Import Params.
 Open Scope Z_scope.
 
@@ -52,6 +52,38 @@ Theorem i_div_rem_in_place_sound fuel lhs rhs res c :
   kernel_pre w lhs rhs -> i_div_rem_in_place w fuel lhs rhs = Ok (res, c) -> kernel_post w lhs rhs res c.
 Proof.
   apply (div_rem_in_place_sound w w_pos (x3by2 w) x3by2_ok (xmul_sub w) xmul_sub_ok Tn Tn_ge).
+Qed.
+
+(** total correctness for the instance: the extracted magnitude operations ARE floor division *)
+Theorem i_repr_div_rem_correct a b : 0 <= a -> 0 < b -> i_repr_div_rem w a b = Ok (a / b, a mod b).
+Proof.
+  apply (repr_div_rem_correct w w_pos (x3by2 w) x3by2_ok (xmul_sub w) xmul_sub_ok Tn Tn_ge x2by1 (x4by2 w) x2by1_ok x4by2_ok).
+Qed.
+
+Theorem i_repr_rem_correct a b : 0 <= a -> 0 < b -> i_repr_rem w a b = Ok (a mod b).
+Proof.
+  apply (repr_rem_correct w w_pos x1by1 x2by1 x2by2 (x3by2 w) (x4by2 w) x1by1_ok x2by1_ok x2by2_ok x3by2_ok x4by2_ok
+           (xmul_sub w) xmul_sub_ok Tn Tn_ge).
+Qed.
+
+Theorem i_const_div_rem_correct a d : 0 <= a -> 0 < d -> i_const_div_rem w a d = Ok (a / d, a mod d).
+Proof.
+  apply (const_div_rem_correct w w_pos x2by1 (x3by2 w) (x4by2 w) x2by1_ok x3by2_ok x4by2_ok (xmul_sub w) xmul_sub_ok Tn Tn_ge).
+Qed.
+
+Theorem i_const_rem_correct a d : 0 <= a -> 0 < d -> i_const_rem w a d = Ok (a mod d).
+Proof.
+  apply (const_rem_correct w w_pos x1by1 x2by1 x2by2 (x3by2 w) (x4by2 w) x1by1_ok x2by1_ok x2by2_ok x3by2_ok x4by2_ok
+           (xmul_sub w) xmul_sub_ok Tn Tn_ge).
+Qed.
+
+Theorem i_instance_correct a b : 0 <= a -> 0 < b ->
+  i_repr_div_rem w a b = Ok (a / b, a mod b) /\ i_repr_rem w a b = Ok (a mod b) /\
+  i_const_div_rem w a b = Ok (a / b, a mod b) /\ i_const_rem w a b = Ok (a mod b).
+Proof.
+  intros Ha Hb.
+  exact (conj (i_repr_div_rem_correct a b Ha Hb) (conj (i_repr_rem_correct a b Ha Hb)
+        (conj (i_const_div_rem_correct a b Ha Hb) (i_const_rem_correct a b Ha Hb)))).
 Qed.
 
 End InstProofs.
